@@ -91,6 +91,8 @@ def replay(r):
         for _ in range(4):
             mats.append([[int(v) for v in rng.randint(-3, 4, size=w)] for _ in range(4)])
         mats.append([[0] * w for _ in range(4)])
+        if w >= 2:
+            mats.append([[(-2 if k == 0 else 1)] + [1 + (k % 2)] * (w - 1) for k in range(4)])     # trailing columns all positive
         mats.append([[3 if k == 0 else -3 for _ in range(w)] for k in range(4)])
     bs = 0.5
     for M in mats:
@@ -305,6 +307,25 @@ def worker(cfg):
             return "returned"
         core.explore(body, stats=stats, max_paths=40000)
 
+    elif kind == "RET":
+        # the function returns the extent the table is indexed by (`smallest`) together with the table
+        blk, info = ld.slice_function("tools.fimo", "_pwm_to_mapping", lambda st, text: isinstance(st, ast.For) and "logpdf[i + 1]" in text, lambda st, text: isinstance(st, ast.Return),
+                                      ["logpdf", "smallest", "largest", "log_pwm_min_csum", "log_pwm_max_csum", "log_pwm_min", "log_pwm_max", "old_logpdf", "int_log_pwm", "n", "l"], None, extra_globals=G)
+        out["functions"].append(info)
+
+        def body(ctx):
+            K = 4
+            pdf, ps = _slog_array(ctx, "d", K)
+            names = ["smallest", "largest", "log_pwm_min_csum", "log_pwm_max_csum", "log_pwm_min", "log_pwm_max"]
+            vs = {k_: core.Int(k_) for k_ in names}
+            ret = blk(pdf, vs["smallest"], vs["largest"], vs["log_pwm_min_csum"], vs["log_pwm_max_csum"], vs["log_pwm_min"], vs["log_pwm_max"], pdf, None, n, 2)
+            ok = isinstance(ret, tuple) and len(ret) == 2 and ret[1] is pdf
+            m = ctx.prove(s_and(ok, ret[0] == vs["smallest"]) if ok else False, "returns (smallest, table)")
+            if m is not None:
+                add("pwm_to_mapping:returns-wrong-offset", "_pwm_to_mapping does not return the offset (`smallest`) its table is indexed by", dict(cfg, widths=[2, 3], column=[1, 1, 2, 1]))
+            return "returned"
+        core.explore(body, stats=stats)
+
     elif kind == "I3":
         K = cfg["K"]
         blk, info = ld.slice_function("tools.fimo", "_pwm_to_mapping", lambda st, text: isinstance(st, ast.For) and "logpdf[i + 1]" in text, lambda st, text: isinstance(st, ast.For) and "logpdf[i + 1]" in text,
@@ -347,7 +368,7 @@ def worker(cfg):
 
 def configs(tier):
     q = tier == "quick"
-    cf = [dict(kind="logaddexp2"), dict(kind="whole_l1", R=2 if q else 3)]
+    cf = [dict(kind="logaddexp2"), dict(kind="whole_l1", R=2 if q else 3), dict(kind="RET")]
     for l in ((1, 2, 3) if q else (1, 2, 3, 4)):
         cf.append(dict(kind="E", l=l, R=3))
     for K in ((3, 5) if q else (3, 5, 7)):
